@@ -5,6 +5,7 @@ package props
 import (
 	"fmt"
 	"math"
+	"sort"
 
 	"github.com/flowmatters/openwater-core/models/routing"
 	"verif/core"
@@ -29,7 +30,7 @@ func init() {
 			{Name: "lag", Variant: "plain", N: core.Tiered(13*20+100, 13*20+30000), Run: c11Lag},
 		},
 		RequireTags: func(string) []string {
-			return []string{"sr:path1", "sr:path2", "sr:path4", "sr:path6", "lag:lag>len", "musk:steady", "musk:event"}
+			return []string{"sr:path1", "sr:path2", "sr:path4", "sr:path6", "lag:lag>len", "musk:steady", "musk:event", "musk:windows"}
 		},
 	})
 }
@@ -203,15 +204,21 @@ func c11Musk(c *core.Ctx) {
 		if fromSteady {
 			run.States = [][]float64{{0, cflow, cflow}}
 		}
-		c.Begin(run)
+		cuts := randomCuts(c.R, T)
+		c.Begin(map[string]interface{}{"model": model, "run": run, "window_cuts": cuts})
 		c.Tag("musk:steady")
-		c.Class(fmt.Sprintf("steady/lat%d/fromSteady%v", latMode, fromSteady))
-		out, err := Execute(run)
+		if len(cuts) > 0 {
+			c.Tag("musk:windows")
+		}
+		c.Class(fmt.Sprintf("steady/lat%d/fromSteady%v/windows%d", latMode, fromSteady, len(cuts)))
+		if run.States == nil {
+			run.States = [][]float64{{0, 0, 0}}
+		}
+		Q, _, err := runWindows(run, cuts)
 		if err != nil {
 			c.Violate("prepare", model, err.Error())
 			return
 		}
-		Q := out.Out[0][0]
 		if fromSteady {
 			for t := 0; t < T; t++ {
 				if math.Abs(Q[t]-cflow) > 1e-9*cflow {
@@ -258,10 +265,29 @@ func c11Musk(c *core.Ctx) {
 		}
 	}
 	run := &MRun{Model: model, N: 1, T: T, Sets: []PSet{ps}, Inputs: [][][]float64{in}}
-	c.Begin(run)
+	var cuts []int
+	if c.R.Bool(0.5) {
+		// windows inside the event, where lateral / upstream inflow is non-zero
+		for k := 0; k < c.R.IntRange(1, 3) && Te > 1; k++ {
+			cuts = append(cuts, c.R.IntRange(1, Te))
+		}
+		sort.Ints(cuts)
+		uniq := cuts[:0]
+		for i, v := range cuts {
+			if i == 0 || v != cuts[i-1] {
+				uniq = append(uniq, v)
+			}
+		}
+		cuts = uniq
+	}
+	c.Begin(map[string]interface{}{"model": model, "run": run, "window_cuts": cuts})
 	c.Tag("musk:event")
-	c.Class(fmt.Sprintf("event/lat%d/Te%d", latMode, Te/10))
-	out, err := Execute(run)
+	if len(cuts) > 0 {
+		c.Tag("musk:windows")
+	}
+	c.Class(fmt.Sprintf("event/lat%d/Te%d/windows%d", latMode, Te/10, len(cuts)))
+	run.States = [][]float64{{0, 0, 0}}
+	Qs, _, err := runWindows(run, cuts)
 	if err != nil {
 		c.Violate("prepare", model, err.Error())
 		return
@@ -269,7 +295,7 @@ func c11Musk(c *core.Ctx) {
 	sumIn, sumOut := 0.0, 0.0
 	for t := 0; t < T; t++ {
 		sumIn += in[iI][t] + in[iL][t]
-		sumOut += out.Out[0][0][t]
+		sumOut += Qs[t]
 	}
 	if sumIn == 0 {
 		c.Trivial()
@@ -356,4 +382,50 @@ func c11Lag(c *core.Ctx) {
 		pos += l
 		c.Count("lag_segments", 1)
 	}
+}
+
+// runWindows executes run either in one call or as consecutive calls over windows that carry
+// the returned states forward (bounds = cut positions); returns the concatenated first output.
+func runWindows(run *MRun, cuts []int) ([]float64, [][]float64, error) {
+	if len(cuts) == 0 {
+		o, err := Execute(run)
+		if err != nil {
+			return nil, nil, err
+		}
+		return o.Out[0][0], o.States, nil
+	}
+	bounds := append(append([]int{0}, cuts...), run.T)
+	var out []float64
+	states := run.States
+	for i := 0; i+1 < len(bounds); i++ {
+		a, b := bounds[i], bounds[i+1]
+		if b <= a {
+			continue
+		}
+		seg := &MRun{Model: run.Model, N: 1, T: b - a, Sets: run.Sets, Inputs: sliceT(run.Inputs, a, b), States: states}
+		o, err := Execute(seg)
+		if err != nil {
+			return nil, nil, err
+		}
+		out = append(out, o.Out[0][0]...)
+		states = o.States
+	}
+	return out, states, nil
+}
+
+func randomCuts(r *core.Rand, T int) []int {
+	if T < 2 || r.Bool(0.5) {
+		return nil
+	}
+	n := r.IntRange(1, 3)
+	set := map[int]bool{}
+	for i := 0; i < n; i++ {
+		set[r.IntRange(1, T-1)] = true
+	}
+	var c []int
+	for k := range set {
+		c = append(c, k)
+	}
+	sort.Ints(c)
+	return c
 }
